@@ -362,6 +362,212 @@ def graph_value(n, edges, i, d):
 
 
 # ----------------------------------------------------------------------------------------------------------------
+# KIND of reference from one function to another.  (name, prelude statements, expression, class, constant)
+#   {F} = the referenced function, {A} = the argument expression, {K} = a suffix unique inside the referencing body.
+#   class 'must': the reference is evaluated, the expression has the value {F}({A}); the function is referenced and
+#                 has to be emitted (C11 6.5.3.4p2: the size expression of a variable length array TYPE NAME that is
+#                 the operand of sizeof IS evaluated; so is the bound of a VLA declaration / typedef / typeof).
+#   class 'may':  the reference sits in an operand that is not evaluated (sizeof / _Alignof of a non-VLA operand,
+#                 _Alignof of a VLA type name, typeof of a non-VLA expression, the controlling expression and the
+#                 associations not selected of _Generic) or in code that can never run (if (0), 1 ? x : f(), 0 && f(),
+#                 after goto): the expression has the constant value; whether the function is emitted is FREE, but
+#                 the unit must link and the program must print the model's value.
+# ----------------------------------------------------------------------------------------------------------------
+REF_HELPERS = ("static unsigned c15_apply(unsigned (*p)(int), int d) { return p(d); }\n"
+               "static unsigned c15_id(unsigned x) { return x; }\ntypedef unsigned (*c15_fp)(int);\n")
+REF_KINDS = [
+    ("call", "", "{F}({A})", "must", None),
+    ("addr-of", "", "(&{F})({A})", "must", None),
+    ("deref-designator", "", "(*{F})({A})", "must", None),
+    ("cast-value", "", "((unsigned (*)(int)){F})({A})", "must", None),
+    ("comma-value", "", "(0, {F})({A})", "must", None),
+    ("argument-value", "", "c15_apply({F}, {A})", "must", None),
+    ("nested-call-arg", "", "c15_id({F}({A}))", "must", None),
+    ("auto-init", "unsigned (*p{K})(int) = {F};", "p{K}({A})", "must", None),
+    ("auto-assign", "unsigned (*p{K})(int); p{K} = {F};", "p{K}({A})", "must", None),
+    ("auto-struct-init", "struct {{ int pad; unsigned (*p)(int); }} s{K} = {{ 1, {F} }};", "s{K}.p({A})", "must", None),
+    ("auto-array-init", "unsigned (*t{K}[2])(int) = {{ 0, {F} }};", "t{K}[1]({A})", "must", None),
+    ("static-local-init", "static unsigned (*p{K})(int) = {F};", "p{K}({A})", "must", None),
+    ("static-local-addr-init", "static unsigned (*p{K})(int) = &{F};", "p{K}({A})", "must", None),
+    ("compound-literal", "", "((c15_fp[]){{ 0, {F} }})[1]({A})", "must", None),
+    ("sizeof-vla-type", "", "(unsigned)sizeof(char[{F}({A})])", "must", None),
+    ("sizeof-vla-type-2d", "", "(unsigned)(sizeof(char[{F}({A})][2]) / 2)", "must", None),
+    ("sizeof-vla-type-inner", "", "(unsigned)(sizeof(char[2][{F}({A})]) / 2)", "must", None),
+    ("vla-bound", "char v{K}[{F}({A})];", "(unsigned)sizeof v{K}", "must", None),
+    ("vla-bound-2d", "char v{K}[2][{F}({A})];", "(unsigned)sizeof v{K}[0]", "must", None),
+    ("vla-typedef", "typedef char T{K}[{F}({A})];", "(unsigned)sizeof(T{K})", "must", None),
+    ("typeof-vla-type", "__typeof__(char[{F}({A})]) v{K};", "(unsigned)sizeof v{K}", "must", None),
+    ("vla-pointer-bound", "char (*q{K})[{F}({A})] = 0;", "(unsigned)sizeof *q{K}", "must", None),
+    ("cond-second", "", "({A} >= 0 ? {F}({A}) : 0u)", "must", None),
+    ("cond-third", "", "({A} < 0 ? 0u : {F}({A}))", "must", None),
+    ("cond-const-live", "", "(0 ? 5u : {F}({A}))", "must", None),
+    ("cond-designator", "", "({A} >= 0 ? {F} : 0)({A})", "must", None),
+    ("cond-omitted", "", "({F}({A}) ?: 1u)", "must", None),
+    ("logand-live", "", "(1 && {F}({A}) ? {F}({A}) : 0u)", "must", None),
+    ("generic-selected", "", "_Generic(0, int: {F}({A}), default: 0u)", "must", None),
+    ("generic-default-selected", "", "_Generic(0, long: 0u, default: {F}({A}))", "must", None),
+    ("generic-designator", "", "_Generic(0, int: {F})({A})", "must", None),
+    ("stmt-expr", "", "({{ unsigned x{K} = {F}({A}); x{K}; }})", "must", None),
+    ("for-init", "unsigned y{K} = 0; for (unsigned z{K} = {F}({A}); !y{K}; ) y{K} = z{K};", "y{K}", "must", None),
+    ("switch-case-body", "unsigned y{K} = 0; switch ({A} >= 0) {{ case 1: y{K} = {F}({A}); }}", "y{K}", "must", None),
+    ("sizeof-call", "", "(unsigned)sizeof({F}({A}))", "may", 4),
+    ("sizeof-expr-no-paren", "", "(unsigned)sizeof {F}({A})", "may", 4),
+    ("sizeof-address", "", "(unsigned)sizeof(&{F})", "may", 8),
+    ("sizeof-array-of-call-size", "", "(unsigned)sizeof(char[sizeof({F}({A}))])", "may", 4),
+    ("sizeof-stmt-expr", "", "(unsigned)sizeof(({{ {F}({A}); }}))", "may", 4),
+    ("alignof-call", "", "(unsigned)_Alignof({F}({A}))", "may", 4),
+    ("alignof-vla-type", "", "(unsigned)(_Alignof(char[{F}({A})]) > 0)", "may", 1),
+    ("typeof-call", "__typeof__({F}({A})) w{K} = 7;", "w{K}", "may", 7),
+    ("generic-unselected", "", "_Generic(0, long: {F}({A}), default: 6u)", "may", 6),
+    ("generic-control", "", "_Generic({F}({A}), unsigned: 9u, default: 0u)", "may", 9),
+    ("cond-const-dead", "", "(1 ? 5u : {F}({A}))", "may", 5),
+    ("logand-dead", "", "(unsigned)(0 && {F}({A}))", "may", 0),
+    ("logor-dead", "", "(unsigned)(1 || {F}({A}))", "may", 1),
+    ("if0-dead", "unsigned y{K} = 3; if (0) y{K} = {F}({A});", "y{K}", "may", 3),
+    ("while0-dead", "unsigned y{K} = 3; while (0) y{K} = {F}({A});", "y{K}", "may", 3),
+    ("after-goto-dead", "unsigned y{K} = 3; goto l{K}; y{K} = {F}({A}); l{K}:;", "y{K}", "may", 3),
+]
+REF_KIND = dict((k[0], k) for k in REF_KINDS)
+REF_ORDER = [k[0] for k in REF_KINDS]
+
+
+def ref_code(kind, F, A, K):
+    """(prelude statements, expression) of one reference of the given kind"""
+    _, pre, ex, _, _ = REF_KIND[kind]
+    return pre.format(F=F, A=A, K=K), ex.format(F=F, A=A, K=K)
+
+
+def ref_graph_model(n, edges, ek, roots, rk, depth):
+    """edges: list of (i, j) with kinds ek (parallel list); roots with kinds rk.  Returns (required, allowed, value):
+    required = functions that must be emitted (reachable over evaluated references), allowed = functions that may be
+    emitted (reachable over all references), value = what the entry function returns for d = depth when every root
+    reference is folded as s = s * 31 + <reference>."""
+    must_e = set(e for e, k in zip(edges, ek) if REF_KIND[k][3] == "must")
+    required = reachable(n, must_e, [r for r, k in zip(roots, rk) if REF_KIND[k][3] == "must"])
+    allowed = reachable(n, set(edges), roots)
+    kind_of = dict(zip(edges, ek))
+
+    def val(i, d):
+        if d <= 0:
+            return i + 1
+        v = i + 1
+        for j in range(n):
+            k = kind_of.get((i, j))
+            if k:
+                v += (j + 2) * (val(j, d - 1) if REF_KIND[k][3] == "must" else REF_KIND[k][4])
+        return v & 0xFFFFFFFF
+    s = 0
+    for r, k in zip(roots, rk):
+        s = (s * 31 + (val(r, depth) if REF_KIND[k][3] == "must" else REF_KIND[k][4])) & 0xFFFFFFFF
+    return required, allowed, s
+
+
+# ----------------------------------------------------------------------------------------------------------------
+# Declarations of ONE identifier at different scopes of one translation unit (C11 6.2.1 scopes, 6.2.2p4/p6/p7):
+#
+#   [F0]  void run(int *o, int P) { [A] pA { [B] pB { [C] pC } pB2 } pA2 }  [F1]  void run2(int *o) { [D] pD }
+#         void end(int *o) { pE }
+#
+# Each slot holds one declaration form or nothing; each probe p reads the object the identifier denotes at that
+# point into o[p] and then stores 100 + p into it.  The model says which OBJECT every probe denotes:
+#   X = the object with external linkage (one per program: shared with the other translation unit),
+#   N = the object with internal linkage, s<slot> = a block-scope static (no linkage), a<slot> = an automatic object
+#   or the parameter.
+# ----------------------------------------------------------------------------------------------------------------
+SCOPE_SLOTS = ["F0", "A", "B", "C", "F1", "D"]
+SCOPE_FORMS = {
+    "F0": ["-", "E", "T", "I", "S", "SI"],           # extern / tentative / initialised / static / static initialised
+    "A":  ["-", "bE", "bS", "bSI", "bA", "bP"],      # block: extern / static / static initialised / automatic / parameter
+    "B":  ["-", "bE", "bS", "bSI", "bA"],
+    "C":  ["-", "bE", "bS", "bSI", "bA"],
+    "F1": ["-", "E", "T", "I", "S"],
+    "D":  ["-", "bE", "bS"],
+}
+SCOPE_PROBES = ["pA", "pB", "pC", "pB2", "pA2", "pD", "pE"]
+SCOPE_VISIBLE = {"pA": ["A", "F0"], "pB": ["B", "A", "F0"], "pC": ["C", "B", "A", "F0"], "pB2": ["B", "A", "F0"],
+                 "pA2": ["A", "F0"], "pD": ["D", "F1", "F0"], "pE": ["F1", "F0"]}
+SCOPE_PRIOR = {"F0": [], "A": ["F0"], "B": ["A", "F0"], "C": ["B", "A", "F0"], "F1": ["F0"], "D": ["F1", "F0"]}
+SCOPE_INIT = {"I": 11, "SI": 12, "companion": 7, "bSI": 40, "bA": 70}     # + slot index for the block forms
+SCOPE_PRIOR_NAME = {None: "none", "E": "file-scope", "T": "file-scope", "I": "file-scope", "S": "file-scope-static",
+                    "SI": "file-scope-static", "bE": "block-extern", "bS": "block-static", "bSI": "block-static",
+                    "bA": "automatic", "bP": "parameter"}
+
+
+def scope_model(case):
+    """case: {slot: form}.  Returns dict: status 'ok' | 'invalid' | 'undefined' (+ why); for 'ok': entity (slot ->
+    'X' | 'N' | 's<slot>' | 'a<slot>'), prior (slot -> form of the visible prior declaration or None, for block
+    extern declarations), probes (probe -> slot or None), x_declared, x_def ('def'|'tentative'|'none'),
+    x_referenced, n_declared, n_def"""
+    form = dict((s, case.get(s, "-")) for s in SCOPE_SLOTS)
+    entity, prior, links = {}, {}, {}
+    for s in SCOPE_SLOTS:
+        f = form[s]
+        if f == "-":
+            continue
+        vis = next((p for p in SCOPE_PRIOR[s] if form[p] != "-"), None)
+        if f in ("bS", "bSI"):
+            entity[s] = "s" + s
+        elif f in ("bA", "bP"):
+            entity[s] = "a" + s
+        else:
+            if f in ("S", "SI"):
+                lk = "internal"
+            elif f in ("E", "bE"):
+                prior[s] = form[vis] if vis else None
+                lk = links.get(vis) or "external"           # 6.2.2p4: no visible prior, or one without linkage -> external
+            else:
+                lk = "external"                             # 6.2.2p5
+            if s == "F1" and vis and links.get(vis) and links[vis] != lk:
+                return {"status": "invalid", "why": "6.2.2p7: file-scope declarations with internal and external linkage"}
+            links[s] = lk
+            entity[s] = "X" if lk == "external" else "N"
+    if len(set(links.values())) > 1:
+        return {"status": "undefined", "why": "6.2.2p7: the identifier has internal and external linkage in one unit"}
+    if form["F0"] == "I" and form["F1"] == "I":
+        return {"status": "invalid", "why": "two external definitions"}
+    probes = {}
+    for p in SCOPE_PROBES:
+        probes[p] = next((s for s in SCOPE_VISIBLE[p] if form[s] != "-"), None)
+    ff = [form[s] for s in ("F0", "F1")]
+    x_decl = "X" in entity.values()
+    n_decl = "N" in entity.values()
+    return {"status": "ok", "entity": entity, "prior": prior, "probes": probes, "x_declared": x_decl, "n_declared": n_decl,
+            "x_def": "none" if not x_decl else "def" if "I" in ff else "tentative" if "T" in ff else "none",
+            "n_def": "none" if not n_decl else "def" if "SI" in ff else "tentative",
+            "x_referenced": any(s and entity[s] == "X" for s in probes.values())}
+
+
+def scope_expected(case, m):
+    """the rows the driver prints: two rounds of run(o, 59 + round); run2(o); end(o); row = o[0..6] + X as the OTHER
+    unit sees it; between the rounds the other unit stores 9 into X."""
+    form = dict((s, case.get(s, "-")) for s in SCOPE_SLOTS)
+    idx = dict((s, i) for i, s in enumerate(SCOPE_SLOTS))
+    obj = {"X": SCOPE_INIT["I"] if m["x_def"] == "def" else 0 if m["x_def"] == "tentative" else SCOPE_INIT["companion"],
+           "N": SCOPE_INIT["SI"] if m["n_def"] == "def" else 0}
+    for s in SCOPE_SLOTS:
+        if form[s] == "bS":
+            obj["s" + s] = 0
+        elif form[s] == "bSI":
+            obj["s" + s] = SCOPE_INIT["bSI"] + idx[s]
+    rows = []
+    for rnd in (1, 2):
+        o = [-1] * len(SCOPE_PROBES)
+        for s in SCOPE_SLOTS:                       # automatic objects are created afresh in every call
+            if form[s] == "bA":
+                obj["a" + s] = SCOPE_INIT["bA"] + idx[s]
+            elif form[s] == "bP":
+                obj["a" + s] = 59 + rnd
+        for i, p in enumerate(SCOPE_PROBES):
+            s = m["probes"][p]
+            if s:
+                o[i] = obj[m["entity"][s]]
+                obj[m["entity"][s]] = 100 + i
+        rows.append(o + [obj["X"]])
+        obj["X"] = 9
+    return rows
+
+
+# ----------------------------------------------------------------------------------------------------------------
 # Multi-unit link sets.  Each unit picks one object form and one function form.
 # ----------------------------------------------------------------------------------------------------------------
 LINK_OBJ = {                 # key -> (text with %d = unit index, provides, uses)
